@@ -183,6 +183,9 @@ def run(check):
     check.assumptions += [
         "the environment calls the API the way QuicConnectionProtocol does: after every call next_event() is drained, datagrams_to_send() and "
         "get_timer() are called; handle_timer() is called 1 microsecond after the deadline get_timer() named; no call after ConnectionTerminated was returned",
+        "the connection objects are driven through the sans-IO API: a fresh server object may be handed any datagram as its first one (the asyncio "
+        "QuicServer only creates a connection for an Initial packet in a datagram of at least 1200 bytes), and a datagram may arrive between "
+        "close() and the next datagrams_to_send() (phase closepending)",
         "a client only receives datagrams after connect(); configuration is the default one (max_datagram_size 1200): exceptions caused by configuration are out of scope",
         "'every byte string' is covered as every input class in every phase with boundary-value and seeded-random concretisations inside a class, not as an enumeration of bytes",
         "after the hostile input the run is continued for a bounded number of steps (genuine traffic, timers, then a blackout until the idle timeout of 1.5 s) - termination is normally reached"]
